@@ -1,5 +1,6 @@
 import MgpuModel.C04
 import MgpuProofs.C04
+import MgpuProofs.C04Bits
 /-! # C04 — property theorems (decoding is total, deterministic, inverse to encoding)
 
 The tables (`Gen.formats`, `Gen.rowsBefore/After`, copy loop, registers) are regenerated from
@@ -35,9 +36,6 @@ theorem rows_opcode_bound : ∀ r ∈ allRows, r.opcode < 1024 := by
   intro r hr
   simpa using List.all_eq_true.mp h r hr
 
-/-- the canonical word of a row: its format's encoding with the opcode field filled in -/
-def opcodeWord (f : Format) (op : Nat) : Nat := f.encoding + op * 2 ^ f.opLo
-
 def rowMatches (r : Row) : Bool :=
   match formatOf r.ft with
   | none => false
@@ -59,6 +57,59 @@ theorem rows_reachable (r : Row) (hr : r ∈ allRows) :
 
 /-- non-vacuity: the table is not empty and contains copies made by the loop -/
 example : 1000 < allRows.length ∧ 0 < copies.length := by decide +kernel
+
+/-- **Matching a format is a comparison of the top bits.** Every mask in the (regenerated) format
+    table keeps the bits `k..31` for some `k` (`shiftOf`), so a 32-bit word is a candidate for a
+    format exactly when it agrees with the format's encoding from bit `k` upwards — whatever the
+    lower bits are. (General bit-level fact: `hit_iff_div`.) -/
+theorem formats_hit_iff_div (f : Format) (hf : f ∈ formats) (w : Nat) (hw : w < 2 ^ 32) :
+    (w ^^^ f.encoding) &&& f.mask = 0 ↔ w / 2 ^ shiftOf f = f.encoding / 2 ^ shiftOf f := by
+  obtain ⟨hm, hk, he⟩ := formats_shaped f hf
+  rw [hm]
+  exact hit_iff_div w f.encoding _ hk hw he
+
+/-- non-vacuity: the table's shifts are the expected ones (SOP1 23, VOP2 31, SMEM 26) -/
+example : formats.map shiftOf = [23, 23, 23, 25, 25, 26, 26, 26, 26, 26, 26, 26, 26, 26, 26, 28, 30, 31] := by
+  decide
+
+/-- **Format matching reads only bits 16..31 of the first dword**: two 32-bit words that agree on
+    their upper halves are matched to the same format (operand fields in the lower half can never
+    redirect an instruction to another format; 16 is the VOP3 opcode field's low end). -/
+theorem matchFormat_depends_on_top_bits (w w' : Nat) (hw : w < 2 ^ 32) (hw' : w' < 2 ^ 32)
+    (h : w / 2 ^ 16 = w' / 2 ^ 16) : matchFormat w = matchFormat w' :=
+  matchFormat_top16 w w' hw hw' h
+
+/-- non-vacuity and sharpness: `v_add_f32 v0, v0, v0` vs. the same with other operands; and bit 16
+    does matter (VOP3a opcode 280 vs. VOP3b opcode 281) -/
+example : matchFormat 0x02000000 = matchFormat 0x0200ffff ∧
+    matchFormat 0xD1180000 ≠ matchFormat 0xD1190000 := by decide
+
+theorem rows_fill : allRows.all rowFill = true := by decide +kernel
+
+/-- **Every table row is reachable under EVERY operand filling.** Take any row `r` of the decode
+    table and ANY 32-bit word `w` that carries the encoding of `r`'s format under the format's mask
+    and `r`'s opcode in the opcode field — all other bits (operands, modifiers, reserved bits)
+    arbitrary. Then `w` is matched to `r`'s format (no more specific format shadows it; VOP3a/VOP3b
+    split by the opcode list respected), and the table lookup with the opcode read from `w` returns
+    exactly `r`. This lifts `rows_reachable` from the canonical word to all fillings. -/
+theorem rows_reachable_all_fillings (r : Row) (hr : r ∈ allRows) :
+    ∃ f, formatOf r.ft = some f ∧
+      ∀ w, w < 2 ^ 32 → (w ^^^ f.encoding) &&& f.mask = 0 → extractBits w f.opLo f.opHi = r.opcode →
+        matchFormat w = some f ∧ lookUp f.ft (extractBits w f.opLo f.opHi) = some r := by
+  have hfill := List.all_eq_true.mp rows_fill r hr
+  cases hf : formatOf r.ft with
+  | none => simp [rowFill, hf] at hfill
+  | some f =>
+    refine ⟨f, rfl, ?_⟩
+    intro w hw henc hop
+    refine ⟨match_of_rowFill hfill hf hw (by simpa [hit] using henc) hop, ?_⟩
+    rw [hop, (formatOf_mem hf).2]
+    exact (rows_reachable r hr).2
+
+/-- non-vacuity: `s_add_u32` with all operand bits set / clear, and a VOP3b row
+    (`v_add_co_u32`-class opcode 281) with arbitrary low bits -/
+example : matchFormat 0x807fffff = formatOf FT_SOP2 ∧ matchFormat 0x80000000 = formatOf FT_SOP2 ∧
+    matchFormat 0xD119ABCD = formatOf FT_VOP3b := by decide
 
 /-- **Reported sizes are 4 or 8 and never exceed the buffer**, for every byte string. -/
 theorem decode_size (cdna3 : Bool) (buf : List Nat) (i : Inst)
